@@ -152,6 +152,9 @@ type FuncCfg struct {
 	// more parameters of the definition (name, Lean type): what a configured reading of a package-level variable
 	// ("vars") or a callee template refers to
 	ExtraParams [][]string `json:"extra_params"`
+	// `go f(…)` / `go func() { … }()` statements are left out: the translation is the function's own, sequential
+	// effect; what the started routine does later is not part of it (its decisions can be extracted: kind "closure")
+	IgnoreGo bool `json:"ignore_go"`
 }
 
 // ExtractCfg: the nth condition (source order, from 0) of the given kind — "if" or "for" — among the
@@ -1879,6 +1882,15 @@ func (ft *ftrans) call(c *ast.CallExpr, e env, pre *[]prelude) val {
 					return val{s: "(some [])", t: mt, nn: true}
 				}
 			}
+			if f.Name == "make" && f.Obj == nil && len(c.Args) >= 1 {
+				if _, isChan := c.Args[0].(*ast.ChanType); isChan {
+					// make(chan T[, n]): a fresh channel — a configured callee "make(chan)" (an identity handed in)
+					if cal := ft.findCallee("make(chan)", nil, e); cal != nil {
+						return ft.applyCallee(cal, "", nil, e, pre)
+					}
+					failf("make(chan …) is outside the subset (no callee \"make(chan)\")")
+				}
+			}
 			if f.Name == "make" && f.Obj == nil && (len(c.Args) == 2 || len(c.Args) == 3) {
 				// make([]T, 0[, cap]): the empty slice
 				if at, isArr := c.Args[0].(*ast.ArrayType); isArr && at.Len == nil {
@@ -2146,6 +2158,11 @@ func (ft *ftrans) block(stmts []ast.Stmt, e env, k cont) node {
 			}
 			failf("statement call of %s is outside the subset", ft.qualName(ce.Fun))
 		}
+	case *ast.GoStmt:
+		if ft.f.cfg != nil && ft.f.cfg.IgnoreGo && ft.f.cfg.Extract == nil {
+			return rest(e)
+		}
+		failf("go statement outside the subset (\"ignore_go\")")
 	case *ast.DeferStmt:
 		// only calls without meaning for the sequential result (unlocking)
 		if ft.ignored(s.Call) {
